@@ -77,6 +77,39 @@ def alter_bytes(b, ch, label):
     return b + ch.bytes(1 + ch.draw(3, label + ".extn"), label + ".ext")
 
 
+def malleate_signature(sig, ch, label, order=None):
+    """Well-known ways in which a DER ECDSA signature gets 'tolerantly' re-read: tag 0x31, high-S,
+    zero-padded integers, trailing bytes, long-form lengths."""
+    n = order or N
+    how = ch.pick(["tag-0x31", "high-s", "pad-r", "trailing-zero", "long-form-length", "tag-0x31",
+                   "negative-r"], label + ".malleation")
+    try:
+        rl = sig[3]
+        r = sig[4:4 + rl]
+        sl = sig[5 + rl]
+        sv = sig[6 + rl:6 + rl + sl]
+    except IndexError:
+        return bytes([sig[0] ^ 1]) + sig[1:], "tag-0x31"
+    def enc(rb, sb, tag=0x30):
+        body = b"\x02" + bytes([len(rb)]) + rb + b"\x02" + bytes([len(sb)]) + sb
+        return bytes([tag, len(body)]) + body
+    if how == "tag-0x31":
+        return bytes([0x31]) + sig[1:], how
+    if how == "high-s":
+        hs = (n - int.from_bytes(sv, "big")) % n
+        hb = hs.to_bytes(32, "big").lstrip(b"\x00") or b"\x00"
+        if hb[0] & 0x80:
+            hb = b"\x00" + hb
+        return enc(r, hb), how
+    if how == "pad-r":
+        return enc(b"\x00" + r, sv), how
+    if how == "trailing-zero":
+        return sig + b"\x00", how
+    if how == "long-form-length":
+        return bytes([0x30, 0x81]) + sig[1:], how
+    return enc(bytes([r[0] | 0x80]) + r[1:] if r and not r[0] & 0x80 else r, sv), how
+
+
 def dishonest_certificate(ch):
     """A signed tree over the four element names, built by an issuer that holds the keys."""
     names = ch.shuffle(REF.VALID_NAMES, "dis.names")[:1 + ch.draw(4, "dis.n")]
@@ -173,12 +206,17 @@ def run_one(ch, cfg):
                 pass
         if cls == "at-rest":
             kind = ch.pick(["message", "signature", "tweak", "swap-signatures", "re-sign",
-                            "re-parent", "add-target", "remove-target", "drop-tweak"], "rest.kind")
+                            "re-parent", "add-target", "remove-target", "drop-tweak",
+                            "signature-malleation", "signature-malleation"], "rest.kind")
             elems = doc["elements"]
             e = elems[ch.draw(len(elems), "rest.elem")]
             elem_name = e["name"]
             if kind in ("message", "signature"):
                 e[kind] = alter_bytes(bytes.fromhex(e[kind]), ch, "rest").hex() or "00"
+            elif kind == "signature-malleation":
+                e["signature"], how = malleate_signature(bytes.fromhex(e["signature"]), ch, "rest")
+                e["signature"] = e["signature"].hex()
+                kind = "malleation:" + how
             elif kind == "tweak":
                 if "tweak" in e:
                     e["tweak"] = flip(bytes.fromhex(e["tweak"]), ch, "rest").hex()
@@ -240,12 +278,13 @@ def run_one(ch, cfg):
     desc = "class %s/%s element %s: real %s%s, reference %s" % (
         cls, kind, elem_name, _short(real), (" (" + real_err + ")") if real_err else "", _short(ref))
     if (real is None) != (ref is None):
-        viol.append(("load/disagreement:%s" % kind, desc))
+        viol.append(("load/disagreement:%s" % kind.split(":")[0], desc))
     elif real is not None and real != ref:
         # which way does it err?
         accepts = isinstance(real, dict) and isinstance(ref, dict) and any(
             real.get(t, (False,))[0] and not ref.get(t, (False,))[0] for t in real)
-        viol.append(("verdict/%s:%s" % ("accepted-invalid" if accepts else "mismatch", kind), desc))
+        viol.append(("verdict/%s:%s" % ("accepted-invalid" if accepts else "mismatch",
+                                        kind.split(":")[0]), desc))
     if cls == "genuine" and isinstance(real, dict):
         for t in ("ui", "signer"):
             if not real.get(t, (False,))[0]:
